@@ -205,6 +205,12 @@ PROPS["C08"] = dict(
 )
 
 PROPS["C07"] = dict(
+    registered=True,
+    level_text="Kernel-checked at the level of object identities: for every size limit the packfile cut is exact (nothing lost, duplicated or reordered; every packfile non-empty); the sender emits commits in list order, "
+               "a table's new blocks before it, nothing twice; for every destination pre-populated with any subset and every parent-first commit list the receiver accepts every object and ends with exactly old + sent; "
+               "a commit with a missing parent is refused. Correspondence: real ObjectSender -> packfile bytes -> PackfileReader -> ObjectReceiver == model (per-packfile object sequence, final key set); "
+               "byte identity, received tables' C03 invariant (tableInv), diagnosis and identical re-built index/profile are checked on the implementation.",
+    level_note=LEVEL_NOTE + "Object contents are abstract in the model: that received bytes equal sent bytes, that blocks validate and that tables are re-indexed correctly is established by the runs (and by C06/C03 for the codecs and the invariant), not by these theorems.",
     lean_modules=["WrglModel.Props.C07"],
     quick_n=160, thorough_n=2500,
     rule="source repositories with 2..4 tables (3..520 rows; variants sharing leading blocks), DAGs of 1..7 commits, destination pre-populated with an ancestor-closed "
